@@ -87,7 +87,9 @@ class TextMeasure(Part):
         # paragraphs of several hundred characters with sentence gaps, indentation and trailing spaces (long strings take other measuring paths)
         para = st.builds(lambda unit, n, lead, nl: lead + (unit * 400)[:n] + ("\nshort line" if nl else ""), st.sampled_from(["word.  ", "ab  cd ", GC.WIDE[0] + GC.WIDE[1] + "  x ", "a b   ", "x" * 30 + " "]),
                          st.one_of(st.integers(60, 140), st.integers(500, 1100)), st.sampled_from(["", "", "    "]), st.booleans())
-        t = st.one_of(GC.words_text(8), GC.words_text(8), GC.mixed_text(30, newlines=True), st.sampled_from(["", " ", "\n", "a", " a ", "a\n", "\na", GC.WIDE[0] + "　" + "b"]), para)
+        t = st.one_of(GC.words_text(8), GC.words_text(8), GC.mixed_text(30, newlines=True), st.sampled_from(["", " ", "\n", "a", " a ", "a\n", "\na", GC.WIDE[0] + "　" + "b"]), para,
+                      # white space that is not a line end for rich (str.splitlines() would break there): NEL, FS, LS, PS, NBSP, thin space
+                      st.lists(st.one_of(st.sampled_from(["ab", "cde", "x", GC.WIDE[0], "fghij"]), st.sampled_from(["\x85", "\x1c", "\u2028", "\u2029", "\xa0", "\u2009", "\u3000", " ", "\n"])), min_size=1, max_size=8).map("".join))
         return st.builds(lambda s, a, j, o: {"s": s, "A": a, "justify": j, "other": o}, t, st.one_of(st.integers(0, 12), st.integers(0, 200), st.integers(0, 2000)), st.sampled_from([None, "left", "full", "center"]), st.one_of(st.none(), GC.mixed_text(40, newlines=True)))
 
     def check(self, spec, ctx):
